@@ -107,6 +107,10 @@ pub fn c05_world(seed: u64, corpus: &[Program]) -> (World, Dims) {
             pick_program(&mut r, corpus)
         };
         let mut job = job_of(&p);
+        if !p.name.starts_with("soup/") && p.name != "poison" && r.chance(1, 4) {
+            // the same source under another option vector is another request, with its own reference
+            job.args = option_vector(r.usize_below(OPTION_VECTORS), &p);
+        }
         if d.rdeliv {
             let e = r.chance(1, 2);
             job.reader = stream(&mut r, true, e);
@@ -192,8 +196,44 @@ pub fn damaged_job(p: &Program, faults: &[SrcFault]) -> JobSpec {
     j
 }
 
+/// Number of option vectors of the "options" enumeration: -O0..3 x --insert-code x -W all x --fsigned_char.
+pub const OPTION_VECTORS: usize = 32;
+
+pub fn option_vector(idx: usize, p: &Program) -> Vec<String> {
+    let mut args = vec![format!("-O{}", idx % 4)];
+    if idx & 4 != 0 {
+        args.push("--insert-code".into());
+    }
+    if idx & 8 != 0 {
+        args.push("-W".into());
+        args.push("all".into());
+    }
+    if idx & 16 != 0 {
+        args.push("--fsigned_char".into());
+    }
+    // keep the program's own -D / -I options
+    let mut it = p.args.iter();
+    while let Some(a) = it.next() {
+        if a == "-D" || a == "-I" {
+            args.push(a.clone());
+            if let Some(v) = it.next() {
+                args.push(v.clone());
+            }
+        }
+    }
+    args
+}
+
 pub fn c16_enum_world(corpus: &[Program], pi: usize, kind: &str, idx: usize) -> World {
     let p = &corpus[pi];
+    if kind == "options" {
+        let mut j = job_of(p);
+        j.args = option_vector(idx, p);
+        j.label = format!("{} options#{}", p.name, idx);
+        let mut w = World::solo("C16", j);
+        w.note = format!("enumerated option vector {} of program {}", idx, pi);
+        return w;
+    }
     let f = faults::nth(kind, &p.source, idx);
     let mut w = World::solo("C16", damaged_job(p, &[f]));
     w.note = format!("enumerated single fault: program {} kind {} index {}", pi, kind, idx);
